@@ -4,9 +4,9 @@ Model of the expected-response machinery of `aioslsk` **after** the proposed fix
 
 * `ExpectedResponse.matches`                       network/network.py:118-143
 * `create_server_response_future`, `create_peer_response_future`,
-  `register_response_future`, `_remove_response_future`   network.py:664-696, 720-741
-* `wait_for_server_message`, `wait_for_peer_message`      network.py:698-718, 743-758
-* `on_message_received`                                    network.py:1186-1207 — the call is *entered*
+  `register_response_future`, `_remove_response_future`   network.py:687-719, 744-765
+* `wait_for_server_message`, `wait_for_peer_message`      network.py:721-742, 767-788
+* `on_message_received`                                    network.py:1204-1225 — the call is *entered*
   (`arrive`), the Network's own handler and the listeners of `MessageReceivedEvent` run (they are the
   environment: whatever they do — suspend, close the connection the message came on or another one,
   register / cancel / await requests — is a sequence of further `Op`s), and when they have returned the
@@ -174,8 +174,8 @@ def State.nmsg (s : State) : Nat := s.hs.length
 inductive Op
   | create (k : Kind) (m : Matcher)   -- future created and appended to the list
   | awaitF (k : Nat)                  -- the caller starts awaiting the future (arms its timeout)
-  | arrive (c : Nat) (μ : Msg)        -- `on_message_received(μ, c)` is entered (network.py:1186); handlers start
-  | finish (h : Nat)                  -- the handlers of call `h` have returned: completion loop (network.py:1201-1207)
+  | arrive (c : Nat) (μ : Msg)        -- `on_message_received(μ, c)` is entered (network.py:1204); handlers start
+  | finish (h : Nat)                  -- the handlers of call `h` have returned: completion loop (network.py:1219-1225)
   | connState (c : Nat) (closing : Bool)   -- `Connection.set_state` of connection object `c` (connection.py:102-105)
   | timeout (k : Nat)                 -- the caller's timeout fires
   | cancelTask (k : Nat)              -- the caller task is cancelled
@@ -197,7 +197,7 @@ def cancelW (k : Nat) (w : Waiter) : Waiter × List Cb :=
   | .pending => ({ w with fut := .cancelled }, doneCbs k w)
   | _ => (w, [])
 
-/-- is the request completed by this message? network.py:1167-1172 (fixed: done futures are skipped) -/
+/-- is the request completed by this message? network.py:1220-1225 (fixed: done futures are skipped) -/
 def hit (μ : Msg) (w : Waiter) : Bool :=
   w.listed && !w.fut.done && w.m.matches μ
 
@@ -225,7 +225,7 @@ def wakeW (k : Nat) (w : Waiter) : Waiter × List Cb :=
   else if w.expired then
     match w.kind with
     | .wait =>
-      -- network.py:716-719 (fixed): `if not future.done(): future.set_exception(exc)` ; `raise`
+      -- network.py:738-741, 784-787 (fixed): `if not future.done(): future.set_exception(exc)` ; `raise`
       if w.fut.done then ({ w with awaiting := false, out := .timeout }, [])
       else match setException w.fut with
         | some f => ({ w with awaiting := false, fut := f, out := .timeout }, [.remove k])
